@@ -31,6 +31,7 @@ func getProfile(name string, seed int64) *Profile {
 		p.Name = "ties"
 		p.W = weights(map[string]int{"Derived": 30, "FindAll": 10, "FindFirst": 6, "Insert": 20, "DropCollection": 0, "Delete": 1, "DeleteById": 2, "CreateIndex": 2})
 	case "derived": // C09
+		p.AltIds = true
 		p.W = weights(map[string]int{"Derived": 30, "FindAll": 4, "Count": 6, "Exists": 4, "FindFirst": 4, "ForEach": 6, "FindById": 4, "DeleteById": 8})
 		p.ReadAudit = 0.5
 	case "audit": // C06
@@ -40,10 +41,12 @@ func getProfile(name string, seed int64) *Profile {
 		p.Invalid = 0.2
 	case "rich": // C11
 		p.Rich = true
+		p.AltIds = true
 		p.W = weights(map[string]int{"FindAll": 10, "FindById": 10, "Derived": 4})
 		p.Invalid = 0.02
 	case "richreopen":
 		p.Rich = true
+		p.AltIds = true
 		p.CloseOps = false
 		p.Ops = 24
 		p.Name = "richreopen"
@@ -51,8 +54,13 @@ func getProfile(name string, seed int64) *Profile {
 		p.Invalid = 0.02
 	case "retype", "retypereopen": // C11: rewrites with the same values in other Go types / zones
 		p.Rich = true
+		p.AltIds = true
 		p.Colls = 1
 		p.Invalid = 0
+	case "pads": // C15: documents of a few bytes up to 70 KB (stores treat large values differently)
+		p.Pads = true
+		p.Colls = 1
+		p.Invalid = 0.05
 	case "expiry": // C15: _expiresAt is data, nothing ever expires - on any backend
 		p.Colls = 1
 		p.TimeTable = "soon"
